@@ -160,7 +160,11 @@ def gen_case(rng, tables, grid_ok, force=None):
     p_col = rng.choice([0.25, 0.5, 0.8])
     p_cell = rng.choice([0.3, 0.6, 0.9, 1.0])
     rep, non = tb["repPrefix"], tb["nonRepPrefix"]
+    # the documented keys: one key per parameter, the same in every file (the global mapping's keys;
+    # method-specific: the global suffixes plus site deployment) — NOT each level's own constant, so
+    # that a level whose constant deviates is caught
     plain = list(tb["globalPlain"])
+    all_meth = list(tb["globalMeth"]) + [tb["siteDeploy"]]
     want_reject = force.get("reject", rng.random() < 0.04)
 
     # global level -------------------------------------------------------------------------------
@@ -290,7 +294,7 @@ def gen_case(rng, tables, grid_ok, force=None):
 
     types = None
     if have_types:
-        cols = add_cols("site_type", list(tb["typePlain"]), list(tb["typeMeth"]), numeric)
+        cols = add_cols("site_type", plain, all_meth, numeric)
         rows = []
         for name in type_names:
             row = {"site_type": name}
@@ -303,7 +307,7 @@ def gen_case(rng, tables, grid_ok, force=None):
 
     # sites file ---------------------------------------------------------------------------------
     n_rows = rng.choice([1, 2, 3, 3, 4, 5, 6])
-    cols = add_cols("sites", list(tb["sitePlain"]), list(tb["siteMeth"]), numeric)
+    cols = add_cols("sites", plain, all_meth, numeric)
     rows = []
     ids = rng.sample(range(1, 60), n_rows)
     for i in range(n_rows):
@@ -354,9 +358,40 @@ def gen_case(rng, tables, grid_ok, force=None):
 # ----------------------------------------------------------------------------------------------
 # the direct oracle: the property's clauses on the implementation's objects
 # ----------------------------------------------------------------------------------------------
+class _Bad:
+    """an implementation value that is not a finite number: unequal to everything, absorbing in sums"""
+
+    def __init__(self, v):
+        self.v = v
+
+    def __eq__(self, o):
+        return False
+
+    def __ne__(self, o):
+        return True
+
+    __hash__ = None
+
+    def __add__(self, o):
+        return self
+
+    __radd__ = __add__
+
+    def __gt__(self, o):
+        return False
+
+    def __repr__(self):
+        return "not-a-number(%r)" % (self.v,)
+
+
 def _f(v):
     from harness.adapters.propagate import _frac
-    return None if v is None else _frac(v)
+    if v is None:
+        return None
+    try:
+        return _frac(v)
+    except (TypeError, ValueError, OverflowError):
+        return _Bad(v)
 
 
 def _split_names(raw):
@@ -621,7 +656,7 @@ def oracle(ctx, case, tables, status, world, picks, collect=None):
                     if not isinstance(got, str) and _f(got) != gsum:
                         viol("C15:conservation:survey-cost-sum", f"site {s['sid']} {me}: survey cost {got!r}, groups add up to {gsum}", inp)
                 else:
-                    if got != round(gsum):
+                    if isinstance(gsum, _Bad) or got != round(gsum):
                         viol("C15:conservation:survey-time-sum", f"site {s['sid']} {me}: survey time {got!r}, groups add up to {gsum}", inp)
                 overridden = any(w[1] is not None and w[1].get(me + suf) is not None for w in want_groups)
                 if not overridden and s["groups"] and sv is not None:
